@@ -352,6 +352,8 @@ class PoolGen:
         r = self.r
         reqs = []
         for _ in range(r.choice([2, 3, 4, 5])):
+            if len(reqs) >= 5:
+                break       # (the order search of the trace specification is factorial in the size of a burst: at most 6)
             x = r.random()
             if x < 0.3:
                 reqs.append({"op": "AddAccountBalance", "acct": r.choice(ACCTS), "amt": r.choice([1, 3, 7, -2, 50])})
